@@ -81,6 +81,97 @@ type EmbHolder struct {
 	Title  string
 }
 
+// ---- a secure (or ignore) tag ON an embedded field of unexported type (X6): every promoted field is secret
+type EmbTagged struct {
+	base  `coerce:"secure"`
+	*more `coerce:"secure"`
+	Name  string
+}
+type deep2 struct {
+	Low string
+	N   int64
+}
+type deep1 struct {
+	deep2
+	Top  string
+	priv string
+}
+type EmbDeep struct {
+	deep1 `coerce:"secure"`
+	Keep  string
+}
+type EmbNil struct {
+	*more `coerce:"secure"`
+	Keep  string
+}
+type EmbIgn struct {
+	base `coerce:"ignore"`
+	Name string
+}
+type TagHolder struct {
+	P     *EmbTagged
+	A     any // EmbTagged by value
+	AP    any // *EmbDeep
+	L     []EmbTagged
+	M     map[string]EmbDeep
+	D     *EmbDeep
+	N     EmbNil
+	I     EmbIgn
+	Title string
+}
+
+func (p *planter) secretTime(path string) time.Time { return p.tm(true, path) }
+
+func (p *planter) embTagged(path string, withMore bool) EmbTagged {
+	r := EmbTagged{
+		base: base{Password: p.secret(path + ".base.Password"), Region: p.secret(path + ".base.Region"), When: p.secretTime(path + ".base.When"),
+			note: p.hiddenField(path + ".base.note")},
+		Name: p.plain(path + ".Name"),
+	}
+	if withMore {
+		r.more = &more{APIKey: p.secret(path + ".more.APIKey"), Zone: p.secret(path + ".more.Zone")}
+	}
+	return r
+}
+
+func (p *planter) embDeep(path string) EmbDeep {
+	return EmbDeep{deep1: deep1{deep2: deep2{Low: p.secret(path + ".deep1.deep2.Low"), N: p.add("n", true, false, path+".deep1.deep2.N").Num},
+		Top: p.secret(path + ".deep1.Top"), priv: p.hiddenField(path + ".deep1.priv")}, Keep: p.plain(path + ".Keep")}
+}
+
+func (p *planter) tagHolder(path string, variant int) *TagHolder {
+	pt := p.embTagged(path+".P*", true)
+	d := p.embDeep(path + ".D*")
+	ap := p.embDeep(path + ".AP.(dyn)*")
+	h := &TagHolder{
+		P: &pt, A: p.embTagged(path+".A.(dyn)", variant%2 == 0), AP: &ap,
+		L: []EmbTagged{p.embTagged(path+".L[0]", true), p.embTagged(path+".L[1]", false)},
+		M: map[string]EmbDeep{"k": p.embDeep(path + ".M[k]")}, D: &d,
+		N: EmbNil{Keep: p.plain(path + ".N.Keep")},
+		I: EmbIgn{base: base{Password: p.secret(path + ".I.base.Password"), Region: p.plain(path + ".I.base.Region"), When: p.tm(false, path+".I.base.When"),
+			note: p.hiddenField(path + ".I.base.note")}, Name: p.plain(path + ".I.Name")},
+		Title: p.plain(path + ".Title"),
+	}
+	return h
+}
+
+const nTagPayloads = 4
+
+func (p *planter) tagPayload(k int, path string) (any, string) {
+	switch k % nTagPayloads {
+	case 0:
+		return p.tagHolder(path+"*", k/nTagPayloads), "*TagHolder (embedded fields of unexported type tagged secure / ignore: by pointer, any, slice, map; two levels; nil *struct)"
+	case 1:
+		e := p.embTagged(path+"*", true)
+		return &e, "*EmbTagged{base `secure`; *more `secure`; Name}"
+	case 2:
+		return p.embDeep(path), "EmbDeep{deep1 `secure` (embeds deep2); Keep} by value"
+	default:
+		e := p.embTagged(path, false)
+		return e, "EmbTagged by value, embedded *more nil"
+	}
+}
+
 // planter hands out canaries with the harness's own labels.
 type planter struct {
 	cans      []*Canary
@@ -207,6 +298,18 @@ func staticCases(w *core.Writer, r *core.Rand) {
 			p.drop("ByPtr", "PtrMap")
 		}
 		runSecure(w, fmt.Sprintf("static-emb-%d", i), "secure-static", name, "ptr", x, p.cans, p.secFields)
+	}
+	// ---- a secure / ignore tag on the embedded field itself
+	for k := 0; k < 2*nTagPayloads; k++ {
+		p := &planter{}
+		x, name := p.tagPayload(k, "v")
+		switch v := x.(type) {
+		case EmbDeep:
+			x, name = &v, "*"+name
+		case EmbTagged:
+			x, name = &v, "*"+name
+		}
+		runSecure(w, fmt.Sprintf("static-tag-%d", k), "secure-static", name, "ptr", x, p.cans, p.secFields)
 	}
 	// ---- types with methods (json.Marshaler by value / pointer receiver, embedded, as fields; TextMarshaler; Stringer; error)
 	for k := 0; k < nMethodPayloads; k++ {
